@@ -27,9 +27,14 @@ class GhostDate:
         raise TypeError('unsupported operand type(s) for -: date and %s' % type(other).__name__)
 
     def __eq__(self, o):
-        return isinstance(o, GhostDate) and (self.ordinal is o.ordinal or (not isinstance(self.ordinal, Sym) and not isinstance(o.ordinal, Sym) and self.ordinal == o.ordinal))
+        if not isinstance(o, GhostDate):
+            return False
+        if self.ordinal is o.ordinal:
+            return True
+        return bool(self.ordinal == o.ordinal)          # symbolic ordinals: a fork inside explore()
 
-    __hash__ = None
+    def __hash__(self):
+        return 0xda7e                                   # one bucket: dict lookups keyed by dates compare with ==
 
     def __repr__(self):
         return 'GhostDate(%r)' % (self.ordinal,)
